@@ -3,26 +3,26 @@ CONSTANTS
   AckMode = "shaped"
   ThrMode = "fixed"
   EmptyMode = "fixed"
-  CfgSet <- CoreCfgs
-  SameCfg = FALSE
+  CfgSet <- BindCfgs
+  SameCfg = TRUE
   Openers = {"A"}
-  MaxOpens = 1
-  Ids = {1}
+  MaxOpens = 0
+  Ids = {1, 2}
   Hosts = {"h0"}
-  MaxWrites = 3
-  Lens = {1, 2}
-  ReadMax = {1, 4}
+  MaxWrites = 0
+  Lens = {1}
+  ReadMax = {4}
   Closers = {}
   MuxDroppers = {}
   DgSenders = {}
   MaxDgrams = 0
-  Binders = {}
-  MaxBinds = 0
+  Binders = {"A"}
+  MaxBinds = 2
   Faults = {}
   AdvMsgs = {}
   MaxAdv = 0
   MaxHandles = 2
-  MaxCtr = 1
+  MaxCtr = 2
 VIEW View
 CONSTRAINT Bound
 INVARIANTS NoViolation TypeOK AckSound QueueBound InitialCredit ExactlyOne TargetCarried BoundedRetry Released DoneResolved
